@@ -64,10 +64,13 @@ structure Fixes where
   /-- `tickit_term_printn` returns at once for `len == 0` instead of letting `write_str` take it for "use
       `strlen`" (`fixes/C09_printn_zero_len.patch`). -/
   printnGuard : Bool
+  /-- `tickit_term_resume` ends with `chpen(driver, tt->pen, tt->pen)`: the cached pen is sent again after the
+      `CSI m` of `tickit_term_pause` (`fixes/C12_pause_pen.patch`, found by the C12 engine). -/
+  resumeResendsPen : Bool
 deriving DecidableEq, Repr, Inhabited
 
 /-- The code as found in the unchanged tree. -/
-def Fixes.none : Fixes := ⟨false, false, false⟩
+def Fixes.none : Fixes := ⟨false, false, false, false⟩
 
 /-- `printf` restricted to `%d`: the format strings of the source, instantiated. -/
 def fmt : List UInt8 → List Int → List UInt8
@@ -246,6 +249,30 @@ def chpen (caps : Caps) (cache : PenCache) (pen : PenReq) : PenCache × List UIn
     ⟨cache.others, if bgChanged then pen.bg else cache.bg, if rvChanged then pen.rv else cache.rv⟩
   (cache', chpenBytes caps.colon
     (setpenParams false bgChanged rvChanged (pen.bg.getD (-1)) (pen.rv.getD false)) cache')
+
+/-! ### `tickit_term_pause` / `tickit_term_resume` (term.c) and the driver's `teardown` / `resume` -/
+
+/-- What `tickit_term_pause` makes the driver write: xterm's `teardown()` with the modes this engine never touches
+    (mouse off, cursor visible, main screen, numeric keypad) sends only the pen reset `CSI m` (the same literal as
+    `Gen.TermBuf.teardown_pen_reset`, regenerated from the source: Props `pauseBytes_from_source`).  Nothing is sent
+    about DECLRMM: the mode `start()` switched on stays on. -/
+def pauseBytes : List UInt8 := csi [0x6d]
+
+/-- What `tickit_term_resume` makes the driver write: xterm's `resume()` sends nothing for those modes (and nothing
+    about DECLRMM), then — in a tree with `fixes/C12_pause_pen.patch` — `chpen(driver, tt->pen, tt->pen)`: the cached
+    pen is both the delta and the final pen, so every attribute the cache holds is sent again. -/
+def resumeBytes (fx : Fixes) (caps : Caps) (cache : PenCache) : List UInt8 :=
+  if fx.resumeResendsPen then
+    chpenBytes caps.colon
+      (setpenParams cache.others cache.bg.isSome cache.rv.isSome (cache.bg.getD (-1)) (cache.rv.getD false)) cache
+  else []
+
+/-- `tickit_term_pause` immediately followed by `tickit_term_resume`. -/
+def suspendBytes (fx : Fixes) (caps : Caps) (cache : PenCache) : List UInt8 := pauseBytes ++ resumeBytes fx caps cache
+
+/-- The cached background, if any, is the default or a palette index (true of every cache built from `Spec.PenOK`
+    pens: `cacheOK_setpen`, `cacheOK_chpen`). -/
+def CacheOK (cache : PenCache) : Prop := ∀ v, cache.bg = some v → -1 ≤ v ∧ v ≤ 255
 
 /-! ### `start`: the probe string sent when the output method is set -/
 
@@ -491,6 +518,9 @@ inductive Op
   | chpen (p : PenReq)
   /-- `tickit_term_set_size` after the emulator's window changed to `lines` x `cols` -/
   | resize (lines cols : Int)
+  /-- `tickit_term_pause` immediately followed by `tickit_term_resume` (the process was stopped in between; the
+      terminal is assumed to come back as it was left) -/
+  | suspend
 deriving Repr
 
 /-- What the reference terminal shows in the cells a resize adds (any content would do: the theorems hold for every
@@ -503,12 +533,14 @@ def stepOp (fx : Fixes) (s : Drv × VT.VTState) : Op → Drv × VT.VTState
   | .setpen p => ({ s.1 with pen := (setpen s.1.caps s.1.pen p).1 }, VT.run (setpen s.1.caps s.1.pen p).2 s.2)
   | .chpen p => ({ s.1 with pen := (chpen s.1.caps s.1.pen p).1 }, VT.run (chpen s.1.caps s.1.pen p).2 s.2)
   | .resize l c => ({ s.1 with lines := l, cols := c }, s.2.resize l c (freshGrid c))   -- the driver sends nothing
+  | .suspend => (s.1, VT.run (suspendBytes fx s.1.caps s.1.pen) s.2)
 
 def OpInContract (fx : Fixes) (s : Drv × VT.VTState) : Op → Prop
   | .req q => InContract fx s.1 s.2 q
   | .setpen p => Spec.PenOK p
   | .chpen p => Spec.PenOK p
   | .resize l c => 1 ≤ l ∧ 1 ≤ c
+  | .suspend => fx.resumeResendsPen = true ∧ CacheOK s.1.pen
 
 /-- A request had exactly its effect; a pen change touched nothing but the rendering attributes. -/
 def OpOK (fx : Fixes) (s s' : Drv × VT.VTState) : Op → Prop
@@ -517,6 +549,7 @@ def OpOK (fx : Fixes) (s s' : Drv × VT.VTState) : Op → Prop
   | .chpen _ => s'.2 = { s.2 with bg := s'.2.bg, rv := s'.2.rv }
   | .resize l c => s'.2 = s.2.resize l c (freshGrid c) ∧ s'.1.lines = l ∧ s'.1.cols = c ∧ s'.1.caps = s.1.caps ∧
       s'.1.pen = s.1.pen
+  | .suspend => s'.2 = { s.2 with bg := s'.2.bg, rv := s'.2.rv } ∧ s'.1 = s.1
 
 def AllOpsInContract (fx : Fixes) : Drv × VT.VTState → List Op → Prop
   | _, [] => True
